@@ -129,6 +129,15 @@ def oracle_roundtrip(acts):
         return "parse(format(actions)) differs: %r" % (back,)
     if len(text.splitlines()) != len(acts):
         return "%d lines for %d actions" % (len(text.splitlines()), len(acts))
+    # the 'diff' formatter in every configuration (the command line builds it with normalize=WS_BOTH unless -w)
+    for kw in (dict(normalize=0), dict(normalize=2), dict(normalize=3), dict(normalize=3, pretty_print=True)):
+        try:
+            t2 = DiffFormatter(**kw).format(acts, None)
+            b2 = list(DiffParser().parse(t2))
+        except Exception as ex:  # noqa
+            return "DiffFormatter(%r): %r" % (kw, ex)
+        if b2 != list(acts):
+            return "parse(DiffFormatter(%r).format(actions)) differs: %r" % (kw, b2)
     # the same with ONE formatter / parser object that has been used before, also on scripts it rejected
     sh = _shared()
     try:
@@ -162,6 +171,27 @@ def poison(text):
             f()
         except Exception:  # noqa
             pass
+
+
+ENTITY_DOCS = [
+    ('<!DOCTYPE r [<!ENTITY e "x">]><r><a>1 &e; 2</a>&e;<b/></r>', '<!DOCTYPE r [<!ENTITY e "x">]><r><a>1 &e; 3</a>&e;<c/><b k="&e;"/></r>'),
+    ('<!DOCTYPE doc [<!ENTITY co "ACME"><!ENTITY yr "2026">]><doc><p>&co; &yr;</p><q/></doc>',
+     '<!DOCTYPE doc [<!ENTITY co "ACME"><!ENTITY yr "2026">]><doc><q/><p>&co; and &co; &yr;</p></doc>'),
+]
+
+
+def oracle_pipeline_text(l, r):
+    """the text-level pipeline on document STRINGS (declarations and all): xmlpatch(xmldiff(l, r), l) = r"""
+    from xmldiff import main, formatting
+    from lxml import etree
+    try:
+        d = main.diff_texts(l, r, formatter=formatting.DiffFormatter(normalize=formatting.WS_NONE))
+        out = main.patch_text(d, l)
+        if gen.canon(etree.fromstring(out)) != gen.canon(etree.fromstring(r)):
+            return "patch_text(diff_texts(l, r), l) != r for documents with an internal DTD subset: %r" % out[:200]
+    except Exception as ex:  # noqa
+        return "pipeline raised %r on documents with an internal DTD subset" % ex
+    return None
 
 
 def oracle_pipeline(L, R):
@@ -291,6 +321,12 @@ def main(run):
         add("parse", "CParse %s %s" % (coq_str(t), term), ("parse", t))
 
     # -- 3. the pipeline on documents -------------------------------------------
+    # documents with an internal DTD subset: general entities used in element content and attribute values
+    from lxml import etree as _et
+    for l_, r_ in ENTITY_DOCS:
+        w = oracle_pipeline_text(l_, r_)
+        if w:
+            viols.append({"what": w, "replay": {"kind": "pipeline-text", "left": l_, "right": r_}})
     npipe = 150 if quick else 2000
     for _ in range(npipe):
         if rng.random() < .25:     # tag and attribute names that look like JSON literals / action keywords
@@ -348,6 +384,10 @@ def replay(run, path):
         why = oracle_roundtrip(acts)
         print(why or "property holds on this input")
         return 1 if why else 0
+    if d.get("kind") == "pipeline-text":
+        w = oracle_pipeline_text(d["left"], d["right"])
+        print(w or "property holds on this input")
+        return 1 if w else 0
     if d.get("kind") == "pipeline":
         from lxml import etree
         w = oracle_pipeline(etree.fromstring(d["left"]), etree.fromstring(d["right"]))
